@@ -23,6 +23,7 @@ var registry = map[string]check{
 	"C06": {"model_checking", checks.C06},
 	"C07": {"model_checking", checks.C07},
 	"C08": {"model_checking", checks.C08},
+	"C14": {"exploration", checks.C14},
 	"C15": {"model_checking", checks.C15},
 	"C09": {"model_checking", checks.C09},
 	"C10": {"model_checking", checks.C10},
@@ -30,6 +31,7 @@ var registry = map[string]check{
 	"C13": {"model_checking", checks.C13},
 	"C16": {"model_checking", checks.C16},
 	"C17": {"fault_enumeration", checks.C17},
+	"C18": {"exploration", checks.C18},
 	"C19": {"exploration", checks.C19},
 }
 
@@ -40,6 +42,9 @@ func main() {
 	}
 	if os.Args[1] == "c17-child" {
 		os.Exit(checks.C17Child(os.Args[2:]))
+	}
+	if os.Args[1] == "c14-gen" {
+		os.Exit(checks.C14Gen())
 	}
 	if os.Args[1] == "replay" {
 		os.Exit(checks.Replay(os.Args[2]))
